@@ -907,6 +907,24 @@ pub fn with_1559(mut t: TxEnv, max_fee: u128, tip: u128) -> TxEnv {
     t
 }
 
+/// An authorisation tuple with an explicit chain id and, optionally, an unrecoverable signature.
+pub fn authorization_ext(
+    auth: Address,
+    auth_nonce: u64,
+    target: Address,
+    chain_id: u64,
+    recoverable: bool,
+) -> revm_context::either::Either<
+    revm_context::transaction::SignedAuthorization,
+    revm_context::transaction::RecoveredAuthorization,
+> {
+    use revm_context::transaction::{Authorization, RecoveredAuthority, RecoveredAuthorization};
+    revm_context::either::Either::Right(RecoveredAuthorization::new_unchecked(
+        Authorization { chain_id: U256::from(chain_id), address: target, nonce: auth_nonce },
+        if recoverable { RecoveredAuthority::Valid(auth) } else { RecoveredAuthority::Invalid },
+    ))
+}
+
 /// One EIP-7702 authorisation tuple (authority `auth` delegates to `target`; `Address::ZERO`
 /// clears) with pre-recovered authority.
 pub fn authorization(
